@@ -511,10 +511,12 @@ type c12Helper struct {
 	why    string
 }
 
-var (
-	c12HelperMemo = map[*kit.Func]*c12Helper{}
-	c12HelperMu   sync.Mutex // properties run concurrently in the sensitivity sweep
-)
+// summaries are cached per program (properties run concurrently in the sensitivity sweep)
+var c12HelperMu sync.Mutex
+
+func c12HelperMemoOf(fn *kit.Func) map[*kit.Func]*c12Helper {
+	return fn.Prog.Aux("c12.helperMemo", func() any { return map[*kit.Func]*c12Helper{} }).(map[*kit.Func]*c12Helper)
+}
 
 // c12ParamChain traces e back to parameter prm of f: the transform steps
 // (innermost first), whether the value depends on prm at all, and whether the
@@ -640,14 +642,14 @@ func c12StepsKey(steps []kit.FieldStep) string {
 // ns == 0" is a witnessed loss, not a guess.
 func c12SummariseHelper(c *kit.Ctx, fn *kit.Func) *c12Helper {
 	c12HelperMu.Lock()
-	hm := c12HelperMemo[fn]
+	hm := c12HelperMemoOf(fn)[fn]
 	c12HelperMu.Unlock()
 	if h := hm; h != nil {
 		return h
 	}
 	h := &c12Helper{status: "unknown"}
 	c12HelperMu.Lock()
-	c12HelperMemo[fn] = h
+	c12HelperMemoOf(fn)[fn] = h
 	c12HelperMu.Unlock()
 	sig := fn.Signature()
 	ps := fn.Params()
